@@ -125,7 +125,7 @@ class ToolStub:
 class Recorder:
     """One instrumented Mitochondria + everything it did."""
 
-    def __init__(self, tools=(), allowed=None, silent=True, timeout=5.0):
+    def __init__(self, tools=(), allowed=None, silent=True, timeout=5.0, max_ros=1.0):
         from operon_ai.organelles import mitochondria as MM
         from operon_ai.core.types import Capability
         self.MM = MM
@@ -138,9 +138,10 @@ class Recorder:
         def capset(ixs):
             return {caps[i % len(caps)] for i in ixs}
 
+        self.capset = capset
         self.tools = [ToolStub(t["name"], capset(t["caps"]), t.get("behaviour", "const"), self.log, self.I,
                                t.get("attr", "required_capabilities")) for t in tools]
-        self.m = MM.Mitochondria(timeout_seconds=timeout, tools=list(self.tools),
+        self.m = MM.Mitochondria(timeout_seconds=timeout, max_ros=max_ros, tools=list(self.tools),
                                  allowed_capabilities=None if allowed is None else capset(allowed), silent=True)
         self.m.silent = silent
         m, I, log = self.m, self.I, self.log
@@ -309,3 +310,51 @@ def classify_error(err: str) -> int:
         if k in err:
             return 3
     return 1
+
+
+PW_COQ = {"math": "Glycolysis", "logic": "Krebs", "tool": "Oxidative", "transform": "BetaOx"}
+
+
+def menv_coq(rec: Recorder, expr: str, pathway, silent: bool) -> str:
+    """Coq term of type C01.Model.menv for one metabolize call: what the
+    trusted host functions (ast.parse, json.loads, ast.literal_eval,
+    _detect_pathway, print) do on this input."""
+    I, m = rec.I, rec.m
+    try:
+        tree = ast.parse(expr, mode="eval")
+        parse = f"(Returns {expr_to_coq(tree.body, I)})"
+    except BaseException:
+        parse = "Raises"
+    s = expr.strip()
+    jde = True
+    try:
+        jsn = f"(Returns {cz(I.vid(json.loads(s)))})"
+    except json.JSONDecodeError:
+        jsn = "Raises"
+    except BaseException:
+        jsn, jde = "Raises", False
+    try:
+        lit = f"(Returns {cz(I.vid(ast.literal_eval(s)))})"
+    except BaseException:
+        lit = "Raises"
+    try:
+        det = m._detect_pathway(expr).value
+    except BaseException:
+        det = "math"
+    surrogate = any(0xD800 <= ord(c) <= 0xDFFF for c in expr[:50])
+    return ("(mkMenv " + " ".join([
+        cz(len(expr)), "false",
+        "None" if pathway is None else f"(Some {PW_COQ[pathway]})",
+        PW_COQ[det], cbool(silent), "Raises" if surrogate else "(Returns tt)",
+        parse, jsn, cbool(jde), lit, "(Returns tt)"]) + ")")
+
+
+def toolspec_coq(rec: Recorder, t) -> str:
+    rc = (getattr(t, "required_capabilities", None) or getattr(t, "capabilities", None) or set())
+    return f"(mkTool {cstring(t.name)} {czl(sorted(rec.caps.index(c) for c in rc))})"
+
+
+def allowed_coq(rec: Recorder, allowed) -> str:
+    if allowed is None:
+        return "None"
+    return f"(Some {czl(sorted({a % len(rec.caps) for a in allowed}))})"
